@@ -1,5 +1,5 @@
 import BobModel.Props.C01
-import BobModel.Proofs.C05Log
+import BobModel.Proofs.C05Emit
 /-
 C05 — failed or killed builds never poison the workspace: property theorems about the builder model
 (Model/Builder.lean).  Definitions (`Truthful`, `Loc`, `AllWF` ...) and lemmas live in Proofs/C01*.lean.
@@ -102,11 +102,28 @@ theorem cut_in_script_unclaimed (E : Env) (cfg : Cfg) (T : Step) (fuel : Nat) (s
   | ok a r' => rw [hr] at h hlast; exact h p hlast
   | abort r' => rw [hr] at h hlast; exact h p hlast
 
+/-- **an unclaimed workspace is never treated as up to date**: if the stored state claims nothing
+about the workspace of a step (which is what every cut inside its script leaves behind,
+`cut_in_script_unclaimed`), then cooking that step - for every project state, flag set and
+environment - starts its script again whenever the cook function returns normally: the skip tests
+of `_cookBuildStep`, `_preparePackageStep` + `_cookPackageStep` and `_cookCheckoutStep` all fail. -/
+theorem unclaimed_step_is_rerun (E : Env) (cfg : Cfg) (i : Info) (pre ds : List Step) (r : Run)
+    (hc : NoClaim r.st i.path) :
+    wp (cookBuild E cfg i ds) (fun _ r' => Op.scriptBegin i.path ∈ r'.log) (fun _ => True) r ∧
+    wp (cookCheckout E cfg i ds) (fun _ r' => Op.scriptBegin i.path ∈ r'.log) (fun _ => True) r ∧
+    wp (preparePackage i ds) (fun _ r' => r'.st.inputs i.path = none) (fun _ => True) r ∧
+    (r.st.inputs i.path = none →
+      wp (cookPackage E cfg i pre ds) (fun _ r' => Op.scriptBegin i.path ∈ r'.log) (fun _ => True) r) :=
+  ⟨cookBuild_emits cfg i ds r hc, cookCheckout_emits cfg i ds r hc, preparePackage_unclaimed i ds r hc,
+    fun hi => cookPackage_emits cfg i pre ds r hi⟩
+
 /-- the log-level reading of "Bob never treats a step as up to date whose workspace was left
 incomplete": after a cut inside the script of `p`, the next successful invocation of a project that
-contains a step at `p` starts that script again.  Kept as goal: proved are its two halves,
-`cut_in_script_unclaimed` (nothing is claimed at such a cut, so every skip test fails) and
-`abort_then_cook_eq_clean` (the next successful invocation leaves the from-scratch content in `p`). -/
+contains a step at `p` starts that script again.  Kept as goal: proved are its parts,
+`cut_in_script_unclaimed` (nothing is claimed at such a cut), `unclaimed_step_is_rerun` (then every
+skip test of the step fails) and `abort_then_cook_eq_clean` (the next successful invocation leaves the
+from-scratch content in `p`); not proved is the composition through the depth-first driver (that
+no other step touches the components of `p` before its own step is cooked). -/
 def no_false_uptodate_goal : Prop :=
   ∀ (E : Env) (dev : Bool) (Γ : Path → List (Dir × Digest)) (cfg cfg' : Cfg) (T T' : Step) (fuel fuel' : Nat) (st : St)
     (p : Path) (r' : Run),
